@@ -333,7 +333,10 @@ void ezc3d::c3d::point(const std::string &name){
             dummy_frames.push_back(frame);
         point(dummy_frames);
     } else {
-        updateParameters({name});
+        // Points store their name without trailing spaces, so must the label
+        std::string trimmedName(name);
+        ezc3d::removeTrailingSpaces(trimmedName);
+        updateParameters({trimmedName});
     }
 }
 
@@ -379,7 +382,10 @@ void ezc3d::c3d::analog(const std::string &name)
             dummy_frames.push_back(frame);
         analog(dummy_frames);
     } else {
-        updateParameters({}, {name});
+        // Channels store their name without trailing spaces, so must the label
+        std::string trimmedName(name);
+        ezc3d::removeTrailingSpaces(trimmedName);
+        updateParameters({}, {trimmedName});
     }
 }
 
